@@ -25,6 +25,7 @@ RULE = (
     "of their variables; string literals with quotes, backslashes and newlines; bracketed/nested paths. Only sources that "
     "parse in strict mode are judged. Non-trivial = original renders successfully on >= 1 data set with non-empty output."
     " Rounds 5-6 added enumerated families: every ordered pair of infix operators in five groupings over a 5x5x5 value grid; names ending in ? or holding hyphens and paths nested once and twice in 33 positions; raw bodies at markup boundaries."
+    " Round 7 added: number literals (tiny / huge / trailing-zero floats) in 11 positions."
 )
 REQUIRED = [
     ("liquid/template.py", "BoundTemplate.__str__"),
